@@ -28,6 +28,9 @@ TOKENS = [
     {"labels": {"a": "α0", "b": "foo"}, "vals": {"x": "01-02-03", "y": "10-11-12-13-14-15-16-17-18-19-1A-1B"}},
     {"labels": {"a": "ρ", "b": "α12"}, "vals": {"x": "00-01-02-03-04-05-06-07-08", "y": "--"}},
     {"labels": {"a": "hello", "b": "𝜑"}, "vals": {"x": "FF-00-FF-00-FF-00-FF-00", "y": "07"}},
+    # label values at the edge of the text form (a blank inside / eight digits), for clone and save+load
+    {"labels": {"a": "~s:a b", "b": "ab"}, "vals": {"x": "00-01-02-03-04-05-06-07-08-09", "y": "--"}},
+    {"labels": {"a": "α12345678", "b": "~s:z"}, "vals": {"x": "AA", "y": "01-02-03-04-05-06-07-08-09"}},
 ]
 
 
@@ -340,7 +343,7 @@ def plan_twin(run, prop, tier):
     e1_world(run, acc, tier)
     obs = ("indep",) if prop == "C10" else ()
     e2_product(run, acc, "A3", [(2, 3, 1), (1, 4, 0), (16, 64, 2)], extra_ops=(op,), observers=obs)
-    e2_product(run, acc, "C2", [(2, 2, 1), (4, 9, 0)], extra_ops=(op,), observers=obs)
+    e2_product(run, acc, "C2", [(2, 2, 3), (4, 9, 4)], extra_ops=(op,), observers=obs)
     e2_product(run, acc, "F4a", [(1, 4, 1)], extra_ops=(op,), observers=obs)
     e2_product(run, acc, "F5", [(1, 5, 0)], extra_ops=(op,), observers=obs)
     if tier == "thorough":
